@@ -45,6 +45,9 @@ def strip_generics(p):
                     is_q = True
                     break
             at_start = (i == 0) or p[i - 1] in ":( ,&[" and not (i >= 2 and p[i - 2:i] == "::" and out and out[-1] == ":" and False)
+            if inner.startswith("impl ") and " for " in inner and i >= 2 and p[i - 2:i] == "::" and "::" not in p[:i - 2]:
+                # `<crate>::<impl Trait for Type>::item` of a workspace crate: keep, otherwise the path collapses
+                is_q = True
             if is_q and (i == 0 or p[i - 2:i] == "::" or p[i - 1] in "( ,&["):
                 out.append("<" + strip_generics(inner) + ">")
             else:
